@@ -36,7 +36,7 @@ def replay(rp):
     if not isinstance(case, dict):
         print("replay: no replayable input in", json.dumps(rp)[:300])
         return 2
-    if "item" in case and "shape" in case and "table" not in case and "base" not in case:  # k_npindex case
+    if "kind" not in case and "item" in case and "shape" in case and "table" not in case and "base" not in case:  # k_npindex case
         out = k_npindex.run_numpy(case)
         print("numpy:", out)
         bad = core.coq_eval_cases("replay_c19", k_npindex.HEADER, k_npindex.coq_terms(case, out))
